@@ -19,8 +19,12 @@ func c02Resume(out *emit.Out, in c02Input) {
 	offered := false
 	run := func(insecure bool, resume bool) puppet.TargetOutcome {
 		cc := tk.EPConfig{Suites: []uint16{in.Suite}, Ident: "cli", ServerName: "server.test", Insecure: insecure, Cache: "shared"}
-		if !insecure {
+		if resume {
 			cc.TimeShiftYears = in.TimeShift
+			cc.Roots = in.Roots2
+			if in.Name != "" {
+				cc.ServerName = in.Name
+			}
 		}
 		script := func(p *puppet.Peer) {
 			p.Sig, p.Enc = sig, enc
@@ -67,13 +71,13 @@ func c02Resume(out *emit.Out, in c02Input) {
 		script(s.P)
 		return s.Finish()
 	}
-	first := run(true, false)
+	first := run(!in.FirstVerifies, false)
 	if !first.Res.Complete {
 		out.Add(emit.Case{Scenario: "resume-cross-config/" + in.Stack, Input: in, Direct: "setup handshake failed: " + first.Res.ErrText})
 		return
 	}
 	second := run(false, true)
-	sessOK := c02VerifyAt(chain[0], in.TimeShift) && c02VerifyAt(chain[1], in.TimeShift)
+	sessOK := c02VerifyRoots(chain[0], in.TimeShift, 0, in.Name, in.Roots2) && c02VerifyRoots(chain[1], in.TimeShift, 0, in.Name, in.Roots2)
 	acc := second.Res.Complete && second.Res.Err == ""
 	direct := ""
 	if second.Panic != "" {
